@@ -1,12 +1,14 @@
 #!/bin/bash
-# usage: tools_mut.sh <name> <check id> '<sed/python command applied in scratch copy>' ; runs quick tier against a scratch copy of /repo
-set -e
+# usage: mut.sh <name> <check id> '<shell command that edits files in the scratch copy>'
+# Copies /repo to /var/tmp/rmut-<name>, applies the edit, runs the quick tier of the check against
+# the copy (VERIF_REPO, private VERIF_WORK), prints the diff head and the verdict, removes everything.
 name=$1; pid=$2; cmd=$3
 d=/var/tmp/rmut-$name
 rm -rf $d; rsync -a --exclude .git /repo/ $d/
 (cd $d && bash -c "$cmd")
-(cd $d && diff -ru /repo . --exclude .git | head -30) || true
+if diff -rq /repo $d --exclude .git >/dev/null; then echo "NOCHANGE $name: the edit did not change anything"; rm -rf $d; exit 3; fi
+(cd $d && diff -ru /repo . --exclude .git | head -${MUT_DIFF_LINES:-30}) || true
 export VERIF_WORK=/var/tmp/rmutwork-$name
 rm -rf $VERIF_WORK
-VERIF_REPO=$d timeout 1500 /verif/check $pid --tier quick 2>&1 | tail -4
+VERIF_REPO=$d timeout 1500 /verif/check $pid --tier ${MUT_TIER:-quick} 2>&1 | tail -4
 rm -rf $d $VERIF_WORK
